@@ -56,8 +56,52 @@ def check_actor_pair(ctx, f):
     pd, pu = find(f, CG + "::insert_actor"), find(f, CG + "::remove_actor")
     ctx.analysed_fns.update([pd, pu])
     fd, fu = reach_fields(f, pd, 1), reach_fields(f, pu, 1)
+    check_unconditional_reindex(ctx, f, pd)
+    check_unconditional_reindex(ctx, f, pu)
     ctx.ob("R11-fields", "ChangeGraph insert_actor / remove_actor", fd == fu and "clock_cache" in fd, f.fns[pu]["sp"],
            "both re-index %s" % sorted(fd) if fd == fu else "insert_actor re-indexes %s, remove_actor %s: cached clocks / indexes go out of step with the actor table after an abandoned transaction" % (sorted(fd), sorted(fu)))
+
+
+def control_switches(b, bi):
+    """switch blocks block bi is control dependent on (Ferrante et al.): bi post-dominates one of the switch's successors but not
+    the switch itself. Post-dominance: every path from a block to a return passes bi."""
+    rets = b.returns()
+
+    def postdominated(x):
+        if x == bi:
+            return True
+        reach = b.reachable(x, removed_blocks=(bi,))
+        return not any(r_ in reach for r_ in rets)
+    out = []
+    for sb, sw in b.switches():
+        if sb == bi or sb not in b.live_blocks() or not b.can_reach(sb, bi):
+            continue
+        succs = [tb for _, tb in sw["targets"]] + [sw["otherwise"]]
+        succs = [x for x in succs if (sb, x) not in b.infeasible_edges()]
+        # a successor from which no return is reachable (the failing arm of an assert, a panic) decides nothing about bi
+        succs = [x for x in succs if any(r_ in b.reachable(x) for r_ in rets)]
+        if any(postdominated(x) for x in succs) and not postdominated(sb):
+            out.append((sb, sw))
+    return out
+
+
+def check_unconditional_reindex(ctx, f, p):
+    """every cached clock / fragment clock is re-indexed: the per-element calls depend on nothing but the loop's own iterator"""
+    b = cfg.body(f.fns[p])
+    sites = [(bi, t) for bi, t in b.calls() if (norm_fn(t.get("res") or t.get("fn")) or "").startswith("automerge::clock::SeqClock::") and
+             norm_fn(t.get("res") or t.get("fn")).split("::")[-1] in ("remove_actor", "insert_actor", "rewrite_with_new_actor")]
+    ctx.floor("per-clock re-index calls in %s" % norm_fn(p).split("::")[-1], len(sites), 2)
+    for k, (bi, t) in util.ordinal_keys(sites, lambda it: "%s|%s" % (norm_fn(p).split("ChangeGraph::")[-1], norm_fn(it[1].get("res") or it[1].get("fn")).split("::")[-1])):
+        bad = []
+        for sb, sw in control_switches(b, bi):
+            src = b.bool_operand_source(sw["op"])
+            if src and src["kind"] == "discr" and util.base_ty(src.get("ty") or "") == "core::option::Option":
+                d = b.single_def(src["origin"][0])
+                if d and d[1] == "t" and norm_fn(d[2].get("fn")) == "core::iter::traits::iterator::Iterator::next":
+                    continue
+            bad.append(util.where(b, sb))
+        ctx.ob("R11-fields", "%s|unconditional" % k, not bad, t["sp"], "runs for every element of the loop" if not bad else
+               "the re-index of a cached clock is conditional (%s): a clock that is skipped keeps the old actor numbering" % bad)
 
 
 def find(f, name):
@@ -92,6 +136,8 @@ def run(ctx):
         ok = (fd == fu) if mode == "equal" else (fd <= fu)
         ctx.ob("R11-fields", name, ok and bool(fd), f.fns[pu]["sp"],
                "both touch %s" % sorted(fd) if ok else "forward half mutates %s, backward half %s: not restored %s, only in undo %s" % (sorted(fd), sorted(fu), sorted(fd - fu), sorted(fu - fd)))
+    check_unconditional_reindex(ctx, f, find(f, CG + "::insert_actor"))
+    check_unconditional_reindex(ctx, f, find(f, CG + "::remove_actor"))
     # ---------------- rollback
     rb = ctx.body(TI + "::rollback")
     undo = [(bi, t) for bi, t in rb.calls() if callee(t) == OS + "::undo_op"]
